@@ -57,3 +57,17 @@ Theorem C11_close_releases_own_binding_only :
 Proof. exact unbind_tcp_spec. Qed.
 Print Assumptions C11_close_releases_own_binding_only.
 
+
+(* a socket has one name: the second bind is refused and changes nothing *)
+Theorem C11_a_bound_socket_cannot_be_bound_again :
+  forall v s e w, d23_single_bind v = true ->
+  (u_open (get_udp w s) = true -> Bool.eqb (negb (a_v6 (e_addr e))) (u_is_v4 (get_udp w s)) = true ->
+   ep_eqb (u_bound (get_udp w s)) ep_none = false -> udp_bind_user v s e w = (EC_INVALID_ARGUMENT, w)) /\
+  (t_open (get_tcp w s) = true -> Bool.eqb (negb (a_v6 (e_addr e))) (t_is_v4 (get_tcp w s)) = true ->
+   ep_eqb (t_bound (get_tcp w s)) ep_none = false -> tcp_bind_user v s e w = (EC_INVALID_ARGUMENT, w)).
+Proof.
+  intros v s e w D. split.
+  - exact (second_bind_is_refused_udp v s e w D).
+  - exact (second_bind_is_refused_tcp v s e w D).
+Qed.
+Print Assumptions C11_a_bound_socket_cannot_be_bound_again.
